@@ -299,7 +299,20 @@ int create_directory(const char *dirname)
 	xasprintf(&oldname, "%s.old", dirname);
 
 	if (can_remove_directory(dirname)) {
-		if (can_remove_directory(oldname)) {
+		struct stat statbuf;
+
+		if (lstat(oldname, &statbuf) == 0) {
+			/*
+			 * rename() below replaces a file or a symbolic link
+			 * without asking: only a real directory with uftrace
+			 * data (or nothing) in it may make room.
+			 */
+			if (!S_ISDIR(statbuf.st_mode) || !can_remove_directory(oldname)) {
+				pr_warn("%s exists and is not uftrace data: not replacing it\n",
+					oldname);
+				goto out;
+			}
+
 			if (remove_directory(oldname) < 0) {
 				pr_warn("removing old directory failed: %m\n");
 				goto out;
